@@ -8,6 +8,7 @@ CONSTANTS
   Ex = 3
   YNorm = TRUE
   Kinds = {"mat", "pert", "resp"}
+  ProdTier = "thorough"
 INVARIANT Theorems
 CONSTRAINT Emit
 CHECK_DEADLOCK FALSE
